@@ -95,10 +95,10 @@ Proof.
   unfold fmt_int. destruct (z <? 0) eqn:E.
   - apply Z.ltb_lt in E. destruct (fmt_uint_spec (- z) ltac:(lia)) as (D & N & P).
     cbn [parse_int]. destruct (fmt_uint (- z)) eqn:F; [congruence|]. first [rewrite P|rewrite <- F, P].
-    cbn [option_map]. f_equal. lia.
+    cbn [option_map]. f_equal. rewrite Z.mul_0_l. lia.
   - apply Z.ltb_ge in E. destruct (fmt_uint_spec z E) as (D & N & P).
     destruct (digits_first _ D N) as (c & t & d & Ec & Hc). rewrite Ec, (parse_int_digit c t d Hc), <- Ec, P.
-    f_equal. lia.
+    f_equal.
 Qed.
 
 Lemma fmt_int_chars z c : digit_of c = None -> c <> "-"%char -> no_byte c (fmt_int z) = true.
@@ -137,11 +137,11 @@ Proof.
         replace (- (e * 10000) <? 0) with true by (symmetry; apply Z.ltb_lt; lia).
         replace (Z.abs (- (e * 10000))) with (e * 10000) by lia.
         replace ((e * 10000 + 5000) / 10000) with e; [reflexivity|].
-        symmetry. apply Z.div_unique with 5000; lia.
+        apply Z.div_unique with 5000; lia.
       * replace (e * 10000 <? 0) with false by (symmetry; apply Z.ltb_ge; lia).
         replace (Z.abs (e * 10000)) with (e * 10000) by lia.
         replace ((e * 10000 + 5000) / 10000) with e; [reflexivity|].
-        symmetry. apply Z.div_unique with 5000; lia.
+        apply Z.div_unique with 5000; lia.
     + intros Hbig. assert (1 <= e) by lia. destruct (d <? 0); lia.
   - intros d. unfold z_fmt_dur. apply num_chars_fmt_fixed. apply Z.div_pos; lia.
   - (* frame rates *)
